@@ -21,7 +21,8 @@ Vocabulary (anything else raises Untranslatable -> the check reports the obligat
                | e + e | e - e | e & e | e | e | e ^ e | e == e | e != e | c ? a : b
                | a && b | a || b (short-circuit) | !a
                | x = e | x += e | x -= e | x &= e | x |= e | x ^= e | ++x | x++ | --x | x--      (x an lvalue name)
-               | static_cast<T|U|alias>(e) | std::exchange(x, e) | std::memcmp(&a, &b, sizeof(T)) == 0
+               | static_cast<T|U|alias>(e) | reinterpret_cast<U*|std::uintptr_t>(e) | e * sizeof(U | std::remove_pointer_t<U>)
+               | std::exchange(x, e) | std::memcmp(&a, &b, sizeof(T)) == 0
                | std::memcpy(&x, &e, sizeof(T))   (assignment of the object representation)
                | f(args) for a member function f of the same class hierarchy (reference parameters written back)
                | Impl::f(args), ++static_cast<Impl&>(*this), static_cast<Impl&>(*this)++ (and --)  [wrapper]
@@ -178,7 +179,8 @@ def split_top(toks, sep=","):
 
 
 TYPE_SPELLINGS = [
-    ("std :: memory_order", "mo"), ("std :: ptrdiff_t", "diff"), ("T &", "ref"), ("U *", "val"), ("T", "val"),
+    ("std :: memory_order", "mo"), ("std :: ptrdiff_t", "diff"), ("std :: uintptr_t", "uptr"), ("T &", "ref"), ("U *", "val"),
+    ("T", "val"),
     ("int", "dummy"), ("bool", "bool"), ("void", "void"), ("std :: uint32_t", "other"),
 ]
 
@@ -558,12 +560,19 @@ class P:
             a = ("bin", "&", a, self.add())
         return a
 
-    def add(self):
+    def mul(self):
         a = self.unary()
+        while self.peek() == "*":
+            self.eat()
+            a = ("bin", "*", a, self.unary())
+        return a
+
+    def add(self):
+        a = self.mul()
         while self.peek() in ("+", "-"):
             op = self.eat()
-            a = ("bin", op, a, self.unary())
-        if self.peek() in ("*", "/", "%", "<", ">"):
+            a = ("bin", op, a, self.mul())
+        if self.peek() in ("/", "%", "<", ">"):
             self.err("operator '%s' is not in the vocabulary" % self.peek())
         return a
 
@@ -625,7 +634,7 @@ class P:
                 self.eat()
                 return ("name", self.eat())
             return ("this",)
-        if p == "static_cast":
+        if p in ("static_cast", "reinterpret_cast"):
             self.eat()
             self.eat("<")
             ty = []
@@ -646,9 +655,13 @@ class P:
         if p == "sizeof":
             self.eat()
             self.eat("(")
-            ty = self.eat()
+            ty, depth = [], 0
+            while not (self.peek() == ")" and depth == 0):
+                x = self.eat()
+                depth += (x in "(<") - (x in ")>")
+                ty.append(x)
             self.eat(")")
-            return ("sizeof", ty)
+            return ("sizeof", " ".join(ty))
         if re.match(r"^[A-Za-z_]", p):
             name = self.eat()
             while self.peek() == "::":
@@ -730,7 +743,7 @@ class Emit:
         self.p1 = None
         self.value_params = []
         for p in m.params:
-            if p["kind"] in ("val", "ref", "diff", "bool") and p["name"]:
+            if p["kind"] in ("val", "ref", "diff", "bool", "uptr") and p["name"]:
                 self.value_params.append(p)
                 self.vars.add(p["name"])
         if len(self.value_params) > 2:
@@ -750,6 +763,8 @@ class Emit:
             return "CBool"
         if s in ("std :: ptrdiff_t",):
             return "ptrdiff_t"
+        if s in ("std :: uintptr_t", "std :: size_t"):
+            return "uintptr_t"
         if s == "int":
             return "int_t"
         cls = self.m.cls
@@ -760,11 +775,24 @@ class Emit:
             c = self.world.base_of(c, None)
         raise Untranslatable("%s: type '%s' is not in the vocabulary" % (self.where, s))
 
+    def sizeof(self, spelling):
+        """Gallina Z expression of sizeof(X) for the instantiated T = U*."""
+        t = spelling.replace(" ", "")
+        if self.m.cls is None or not (self.m.cls.spec and any("*" in x for x in self.m.cls.spec)):
+            raise Untranslatable("%s: sizeof(%s) outside the pointer specialisation" % (self.where, t))
+        if t == "U":
+            return "sizeof_pointee T"
+        if t in ("std::remove_pointer_t<U>", "typenamestd::remove_pointer<U>::type"):
+            return "sizeof_rp_pointee T"
+        if t in ("U*", "T", "void*", "std::uintptr_t"):
+            return "8"
+        raise Untranslatable("%s: sizeof(%s) is not in the vocabulary" % (self.where, t))
+
     def ret_ty(self):
         return {"T": "T", "bool": "CBool", "void": None}[self.m.ret]
 
     def param_ty(self, p):
-        return {"val": "T", "ref": "T", "diff": "ptrdiff_t", "bool": "CBool"}[p["kind"]]
+        return {"val": "T", "ref": "T", "diff": "ptrdiff_t", "bool": "CBool", "uptr": "uintptr_t"}[p["kind"]]
 
     # ---- top
     def definition(self, name):
@@ -869,6 +897,13 @@ class Emit:
                     return "%sobind (%s %s %s) (fun %s_ => let %s := (CBool, if %s%s_ then 1 else 0) in\n%s)" % (
                         pad, cmpf, a, b, x, x, neg, x, k(x))
                 return self.expr(lhs, ind, lambda a: self.expr(rhs, ind, lambda b: k2(a, b)))
+            if op == "*":
+                # only  e * sizeof(X)  /  sizeof(X) * e : scaling by an object size, computed in std::size_t
+                lhs, rhs = (e[2], e[3]) if e[3][0] == "sizeof" else (e[3], e[2])
+                if rhs[0] != "sizeof" or lhs[0] == "sizeof":
+                    raise Untranslatable("%s: '*' other than e * sizeof(X) is not in the vocabulary" % self.where)
+                x = self.fresh()
+                return self.expr(lhs, ind, lambda a: "%slet %s := mul_sizeof %s (%s) in\n%s" % (pad, x, a, self.sizeof(rhs[1]), k(x)))
             x = self.fresh()
             return self.expr(e[2], ind, lambda a: self.expr(e[3], ind, lambda b:
                              "%sobind (binop S %s %s %s) (fun %s =>\n%s)" % (pad, BOP[op], a, b, x, k(x))))
@@ -953,13 +988,13 @@ class Emit:
             if callee is None:
                 raise Untranslatable("%s: call of unknown function %s" % (self.where, fn))
             cm, cname = callee
-            cps = [p for p in cm.params if p["kind"] in ("val", "ref", "diff", "bool") and p["name"]]
+            cps = [p for p in cm.params if p["kind"] in ("val", "ref", "diff", "bool", "uptr") and p["name"]]
             rty = {"T": "T", "bool": "CBool", "void": "CBool"}[cm.ret]
             r = self.fresh("r")
             pre = "I " if self.wrapper else ""
 
             def done(vs):
-                a = ["(snd (cast %s %s))" % ({"val": "T", "ref": "T", "diff": "ptrdiff_t", "bool": "CBool"}[p["kind"]], x)
+                a = ["(snd (cast %s %s))" % ({"val": "T", "ref": "T", "diff": "ptrdiff_t", "bool": "CBool", "uptr": "uintptr_t"}[p["kind"]], x)
                      for p, x in zip(cps, vs)]
                 while len(a) < 2:
                     a.append("0")
@@ -1221,7 +1256,7 @@ class World:
             ms = [m for m in c.methods if m.name == fn]
             if ms:
                 def score(m):
-                    vals = sum(1 for p in m.params if p["kind"] in ("val", "ref", "diff", "bool"))
+                    vals = sum(1 for p in m.params if p["kind"] in ("val", "ref", "diff", "bool", "uptr"))
                     mos = sum(1 for p in m.params if p["kind"] == "mo")
                     return (m.volatile == vol, vals == n_val, n_mo is None or mos >= n_mo, -mos)
                 ms.sort(key=score, reverse=True)
